@@ -15,6 +15,7 @@ def dispatch (j : Json) : R Json := do
   | "getitem" => handleGetitem j
   | "slice_indices" => handleSliceIndices j
   | "pickle" => handlePickle j
+  | "heap" => handleHeap j
   | "ping" => pure (Json.mkObj [("pong", Json.bool true)])
   | _ => throw s!"unknown op {op}"
 
